@@ -333,6 +333,7 @@ proof fn lemma_no_hit(e0: Seq<Element>, ev: Seq<Element>, m: Map<i16, Vec<Elemen
 // =====================================================================================================
 // LIBRARY LEVEL (C06): GdsImporter::import_cell / import_and_add / import_lib
 // =====================================================================================================
+//@ pin layout21raw/src/data.rs :: impl From<Layout> for Cell :: fn from @6c4fc9f0
 /// model of `impl From<Layout> for Cell` (data.rs): named after the layout, only the layout view
 impl vstd::std_specs::convert::FromSpecImpl<Layout> for Cell {
     open spec fn obeys_from_spec() -> bool { true }
@@ -342,6 +343,8 @@ impl From<Layout> for Cell {
     #[verifier::external_body]
     fn from(src: Layout) -> (r: Cell) ensures r.name@ == src.name@, r.layout == Some(src), r.abs is None { unimplemented!() }
 }
+//@ pin layout21utils/src/ptr.rs :: impl<T> PtrList<T> :: fn insert @cadd958f
+//@ pin layout21utils/src/ptr.rs :: impl<T> PtrList<T> :: fn add @305d31d1
 /// model of PtrList::insert (= add): wrap the cell in a NEW handle, append it, return the handle
 #[verifier::external_body]
 pub fn vp_cells_insert(cells: &mut Vec<Ptr<Cell>>, c: Cell) -> (r: Ptr<Cell>)
